@@ -366,7 +366,13 @@ func (ex *explorer) branch(cond *smt.Term) bool {
 	if b {
 		alt = ex.ctx.Not(cond)
 	}
-	res, m := ex.check(alt)
+	var res smt.Result
+	var m map[*smt.Term]uint64
+	if gm := ex.guessOther(cond, alt); gm != nil {
+		res, m = smt.Sat, gm
+	} else {
+		res, m = ex.check(alt)
+	}
 	if unsatLog != "" && res == smt.Unsat {
 		f, err := os.OpenFile(unsatLog, os.O_APPEND|os.O_CREATE|os.O_WRONLY, 0o644)
 		if err == nil {
@@ -393,6 +399,61 @@ func (ex *explorer) branch(cond *smt.Term) bool {
 		ex.addPC(ex.ctx.Not(cond))
 	}
 	return b
+}
+
+// guessOther looks, by evaluation alone, for a model of the path condition and other that
+// differs from the current model in one small variable of t.  Only a hit is used (it is a
+// checked witness); a miss says nothing and the solver is asked.
+func (ex *explorer) guessOther(t, other *smt.Term) map[*smt.Term]uint64 {
+	var vars []*smt.Term
+	seen := map[*smt.Term]bool{}
+	var walk func(x *smt.Term)
+	walk = func(x *smt.Term) {
+		if seen[x] || len(vars) > 4 {
+			return
+		}
+		seen[x] = true
+		if x.Op == smt.OpVar {
+			vars = append(vars, x)
+			return
+		}
+		for _, a := range x.Args {
+			walk(a)
+		}
+	}
+	walk(t)
+	if len(vars) == 0 || len(vars) > 4 {
+		return nil
+	}
+	for _, v := range vars {
+		if v.Sort == 0 || v.Sort > 8 {
+			continue
+		}
+		old := ex.model[v]
+		for c := uint64(0); c < uint64(1)<<uint(v.Sort); c++ {
+			if c == old {
+				continue
+			}
+			ex.model[v] = c
+			ok := ex.ctx.Eval(other, ex.model) == 1
+			for _, p := range ex.pc {
+				if !ok {
+					break
+				}
+				ok = ex.ctx.Eval(p, ex.model) == 1
+			}
+			if ok {
+				m := make(map[*smt.Term]uint64, len(ex.model))
+				for k, val := range ex.model {
+					m[k] = val
+				}
+				ex.model[v] = old
+				return m
+			}
+		}
+		ex.model[v] = old
+	}
+	return nil
 }
 
 // guessModel looks for an assignment of the path's variables that satisfies the path condition
@@ -501,7 +562,14 @@ func (ex *explorer) concretize(t *smt.Term) uint64 {
 	for _, e := range excl {
 		other = c.And(other, c.Not(c.Eq(t, c.BV(e, t.Sort))))
 	}
-	res, m := ex.check(other)
+	var res smt.Result
+	var m map[*smt.Term]uint64
+	if gm := ex.guessOther(t, other); gm != nil {
+		// another value found by evaluation alone: a checked witness, no query needed
+		res, m = smt.Sat, gm
+	} else {
+		res, m = ex.check(other)
+	}
 	switch res {
 	case smt.Sat:
 		ne := append(append([]uint64{}, excl...), v)
